@@ -48,6 +48,26 @@ PROPS = {
         'not_decided': 'composition over whole programs; agreement with the other backends only through the shared effect specifications',
         'explanation': 'Hoare-style contracts over an RV64 ISA specification on every instruction emitter of axcut2rv64',
     },
+    'C09': {
+        'units': ['x86_memory', 'a64_memory', 'rv64_memory'],
+        'aux': ['native_moves', 'native_heap'],
+        'level': 'other',
+        'claim': 'Local contracts of the memory primitives on all three backends are proved by Verus for all placements and all machine states: share_block_n / erase_block (exact count delta; last reference -> the block is pushed on the deferred list with its children untouched; null pointers skipped), release_block, acquire_block (three exhaustive cases; children of a reused deferred block erased one level), store/load of a field and of a value (slot addresses, integer fields store 0 in the pointer slot, a loaded pointer is shared iff the load is non-destructive). Each contract pins the whole post-state (extensional equality of registers and memory), so the frame is proved too. The statement itself - the four-state partition of all blocks and exact counts at every statement boundary of every execution - is an inductive invariant over program histories and is NOT decided; the proved contracts are the per-operation lemmas such a proof would use.',
+        'note': 'Assumed: A-ITE (the two label patterns emitted by skip_if_zero / if_zero_then_else implement if-then-else; stated as axioms over the structured semantics srun) and A-LBL (fresh labels); ISA specs. Multi-block store_fields/load_fields and the global invariant are not under contract.',
+        'technique': 'contract-based deductive verification (Verus) of the memory primitives against exact state-transformer specifications, under assumed if-then-else pattern axioms',
+        'not_decided': 'the global heap invariant (partition into reachable / reusable / deferred / beneath-deferred, count = references - 1) at every statement boundary; multi-block linking in store_fields/load_fields',
+        'explanation': 'Proved: per-primitive exact state transformers with full frame on x86-64, AArch64, RISC-V (under A-ITE). Not decided: the whole-execution heap invariant.',
+    },
+    'C10': {
+        'units': ['x86_memory', 'a64_memory', 'rv64_memory'],
+        'aux': ['native_heap'],
+        'level': 'proof',
+        'claim': 'Sentence 1 of the property is the postcondition of acquire_block, proved on all three backends for every machine state: its three cases are exhaustive and exclusive (reusable-list link non-zero / else deferred-list link non-zero / else neither), and only in the third does the frontier register receive an address not already held in the state, namely old frontier + 64 (one block). Every other verified emitter has the frontier register in its frame (erase_block sets it to a block that is already below the frontier). Sentence 2 (space independent of iteration count) is a corollary over histories and is given informally, not counted as an obligation.',
+        'note': 'Assumed: A-ITE / A-LBL, ISA specs. The history-level corollary is not machine-checked.',
+        'technique': 'contract-based deductive verification (Verus): exact three-case postcondition of acquire_block + frame clauses of all other emitters',
+        'not_decided': 'the footprint bound as a statement over whole executions (sentence 2)',
+        'explanation': 'acquire_block bumps the frontier only when both list links are zero, by exactly one block; proved on x86-64, AArch64, RISC-V',
+    },
     'C11': {
         'units': ['x86_moves', 'a64_code', 'rv64_code'],
         'aux': ['native_moves'],
